@@ -75,6 +75,10 @@ CHECKS = {
          "Rounds of one writer plus concurrent readers, followed by readers that begin only after the writer's Commit returned; L1/L2 capacities from 1 entry to defaults, cache durations none..long with TTL, injected lost/missing L2 entries, clock advances across expiries, optional restart (cold caches). Every Get/scan/Count of an after-reader must equal the latest committed state.",
          "Trusted: simulator, KV model. Standalone caching only (one simulated process, in-memory L2 behind the proxy); the clustered Redis variant is not covered by this check (the Redis client is exercised by C28 against a stub). A task that spins inside sop is reported as a hang-class violation.",
          "7/C20"),
+ "C28": (EXPL, "deterministic simulation: seeded interleavings of lock-service calls by several owners with TTL expiry under a simulated clock and full-cache pressure; lock-table model in lockstep",
+         "2-4 owners issue Lock/DualLock/Unlock/IsLocked/IsLockedTTL/IsLockedByOthers and releases of keys they do not hold over shared keys, with TTLs 1 s..10 min, simulated sleeps across expiry, shard capacities default/1/2/4 with unrelated entries and colliding unrelated locks; a lock table with simulated time is kept in lockstep and cross-checked after every call (two holders, lock lost before expiry, foreign unlock, IsLocked true for a non-holder).",
+         "Trusted: simulator, lock-table model. In-memory lock service only: each L2 call is one atomic scheduler step (sub-call interleavings of the sharded map are not explored); the Redis adapter's locker is NOT covered (no Redis server/stub in this build) - stated limitation.",
+         "7/C28"),
 }
 
 NOT_APPLICABLE = {
